@@ -39,6 +39,7 @@ def build(shape: str, axiom_idx: tuple, claim_mode: str = 'all', share: bool = F
     share: the same axiom is declared by two different nodes (distinct owners publish equal patterns)."""
     pool = axiom_pool()
     nodes = {}
+    declared = {}
     order = []
     it = iter(axiom_idx)
     first_axiom = None
@@ -51,19 +52,24 @@ def build(shape: str, axiom_idx: tuple, claim_mode: str = 'all', share: bool = F
             axs = axs + [first_axiom]
         if axs and first_axiom is None:
             first_axiom = axs[0]
-        m = ProofExp(axioms=list(dict.fromkeys(axs)))     # add_axiom de-duplicates; do the same for the constructor list
+        declared[name] = list(dict.fromkeys(axs))         # add_axiom de-duplicates; do the same for the constructor list
+        m = ProofExp(axioms=list(declared[name]))
         for imp in imports:
             m.import_module(nodes[imp])
         nodes[name] = m
         order.append(name)
     top = nodes[order[-1]]
-    # expected publish order: imports first (in import order, recursively, repeated imports repeat), then own axioms
-    def closure(m):
+    # expected publish order, computed from the *specification* (never from the module objects' internals):
+    # imports first (in import order, recursively, repeated imports repeat), then own axioms
+    spec = {name: (imports, declared[name]) for name, imports, _ in SHAPES[shape]}
+
+    def closure(name):
+        imports, axs = spec[name]
         out = []
-        for s in m._submodules:
-            out += closure(s)
-        return out + [(m, a) for a in m._axioms]
-    pub = closure(top)
+        for i in imports:
+            out += closure(i)
+        return out + [(nodes[name], a) for a in axs]
+    pub = closure(order[-1])
     claims = []
     proofs = []
     if claim_mode != 'none':
